@@ -3,22 +3,24 @@ Fourier-Motzkin entailment over rationals (sound for the integer facts used here
 
 A linear form is (dict symbol -> coefficient, constant).  Symbols are hashable
 tuples: ('strlen', key) ('var', decl id, name) ('field', text) ('opaque', node id)."""
-from fractions import Fraction
 
 from .dataflow import decl_of, def_sites
 from .facts import render, strip
 
 
 class Lin:
-    __slots__ = ('t', 'c')
+    """sum of coefficient*symbol + constant; coefficients are Python ints (all arithmetic here is
+    integer: constants, element sizes and Fourier-Motzkin combinations)."""
+    __slots__ = ('t', 'c', '_h')
 
     def __init__(self, t=None, c=0):
-        self.t = {k: Fraction(v) for k, v in (t or {}).items() if v != 0}
-        self.c = Fraction(c)
+        self.t = {k: v for k, v in t.items() if v != 0} if t else {}
+        self.c = c
+        self._h = None
 
     @staticmethod
     def const(c):
-        return Lin({}, c)
+        return Lin(None, c)
 
     @staticmethod
     def sym(s):
@@ -27,26 +29,40 @@ class Lin:
     def __add__(self, o):
         t = dict(self.t)
         for k, v in o.t.items():
-            t[k] = t.get(k, 0) + v
-        return Lin(t, self.c + o.c)
+            nv = t.get(k, 0) + v
+            if nv:
+                t[k] = nv
+            else:
+                t.pop(k, None)
+        r = Lin(None, self.c + o.c)
+        r.t = t
+        return r
 
     def __neg__(self):
-        return Lin({k: -v for k, v in self.t.items()}, -self.c)
+        r = Lin(None, -self.c)
+        r.t = {k: -v for k, v in self.t.items()}
+        return r
 
     def __sub__(self, o):
         return self + (-o)
 
     def scale(self, f):
-        return Lin({k: v * f for k, v in self.t.items()}, self.c * f)
+        if f == 1:
+            return self
+        r = Lin(None, self.c * f)
+        r.t = {k: v * f for k, v in self.t.items()} if f else {}
+        return r
 
     def is_const(self):
         return not self.t
 
     def __eq__(self, o):
-        return isinstance(o, Lin) and self.t == o.t and self.c == o.c
+        return isinstance(o, Lin) and self.c == o.c and self.t == o.t
 
     def __hash__(self):
-        return hash((tuple(sorted(self.t.items(), key=repr)), self.c))
+        if self._h is None:
+            self._h = hash((frozenset(self.t.items()), self.c))
+        return self._h
 
     def __repr__(self):
         parts = []
@@ -172,38 +188,102 @@ def strkey(a):
 # ---- Fourier-Motzkin ----------------------------------------------------------
 # a constraint is a Lin meaning  lin >= 0
 
+_memo = {}
+
+
+def _normalize(c):
+    """divide by the gcd of the coefficients (integer tightening of the constant)"""
+    from math import gcd
+    g = 0
+    for v in c.t.values():
+        g = gcd(g, abs(v))
+    if g > 1:
+        r = Lin(None, c.c // g)   # floor: sum(a_i x_i) >= -c  with integer lhs  =>  tighter bound
+        r.t = {k: v // g for k, v in c.t.items()}
+        return r
+    return c
+
+
 def entails(facts, goal, max_vars=10):
-    """do the facts (list of Lin, each meaning >= 0) entail goal >= 0 ?
-    Decided by refuting facts + (goal <= -1) over the rationals (integers: -goal-1 >= 0)."""
-    cons = [f for f in facts] + [(-goal) - Lin.const(1)]
+    """do the facts (Lins, each meaning >= 0) entail goal >= 0 over the integers?
+    Refutation of facts + (goal <= -1) by Fourier-Motzkin elimination (sound; complete over the
+    rationals), restricted to the constraints connected to the goal's symbols."""
+    neg = (-goal) - Lin.const(1)
+    if not goal.t:
+        if goal.c >= 0:
+            return True
+    # relevance slice
+    rel = set(neg.t)
+    fl = [f for f in facts if f.t]
+    changed = True
+    rounds = 0
+    used = []
+    pool = list(fl)
+    while changed and rounds < 4:
+        changed = False
+        rounds += 1
+        rest = []
+        for c in pool:
+            if rel & c.t.keys():
+                used.append(c)
+                if not (c.t.keys() <= rel):
+                    rel |= c.t.keys()
+                    changed = True
+            else:
+                rest.append(c)
+        pool = rest
+    # constant facts that are false make everything follow
+    for f in facts:
+        if not f.t and f.c < 0:
+            return True
+    key = (frozenset(used), neg)
+    r = _memo.get(key)
+    if r is not None:
+        return r
+    cons = set(_normalize(c) for c in used)
+    cons.add(_normalize(neg))
+    res = False
     syms = set()
     for c in cons:
-        syms |= set(c.t)
-    if len(syms) > max_vars:
-        # keep only constraints sharing symbols with the goal (transitively, bounded)
-        rel = set(goal.t)
-        for _ in range(3):
-            for c in facts:
-                if set(c.t) & rel:
-                    rel |= set(c.t)
-        cons = [c for c in cons if set(c.t) <= rel]
-        syms = rel
-    cons = list(set(cons))
-    for s in list(syms):
-        pos = [c for c in cons if c.t.get(s, 0) > 0]
-        neg = [c for c in cons if c.t.get(s, 0) < 0]
-        rest = [c for c in cons if c.t.get(s, 0) == 0]
-        new = []
-        for p in pos:
-            for q in neg:
-                a, b = p.t[s], -q.t[s]
-                comb = p.scale(b) + q.scale(a)
-                comb.t.pop(s, None)
-                new.append(comb)
-        cons = list(set(rest + new))
-        if len(cons) > 4000:
-            return False
-    for c in cons:
-        if not c.t and c.c < 0:
-            return True
-    return False
+        syms |= c.t.keys()
+    # eliminate symbols with the fewest pos*neg products first
+    while syms:
+        best, bestcost = None, None
+        for s_ in syms:
+            p_ = sum(1 for c in cons if c.t.get(s_, 0) > 0)
+            n_ = sum(1 for c in cons if c.t.get(s_, 0) < 0)
+            cost = p_ * n_ - p_ - n_
+            if bestcost is None or cost < bestcost:
+                best, bestcost = s_, cost
+        s_ = best
+        syms.discard(s_)
+        pos = [c for c in cons if c.t.get(s_, 0) > 0]
+        negs = [c for c in cons if c.t.get(s_, 0) < 0]
+        rest = set(c for c in cons if c.t.get(s_, 0) == 0)
+        if len(pos) * len(negs) > 400:
+            res = False
+            break
+        for p_ in pos:
+            for q_ in negs:
+                a_, b_ = p_.t[s_], -q_.t[s_]
+                comb = p_.scale(b_) + q_.scale(a_)
+                comb.t.pop(s_, None)
+                comb._h = None
+                if not comb.t:
+                    if comb.c < 0:
+                        _memo[key] = True
+                        return True
+                    continue
+                rest.add(_normalize(comb))
+        cons = rest
+        if len(cons) > 1500:
+            break
+        if any((not c.t) and c.c < 0 for c in cons):
+            res = True
+            break
+    else:
+        res = any((not c.t) and c.c < 0 for c in cons)
+    if len(_memo) > 200000:
+        _memo.clear()
+    _memo[key] = res
+    return res
